@@ -98,8 +98,8 @@ fn alphabet() -> Vec<Dev> {
         }
     }
     for l in [" x", "X", "é", "Tt"] {
-        d.push(dev(format!("Aa.serialize={:?}", l), &["ser"], move |s| {
-            if let Some(v) = s.variants.iter_mut().find(|v| v.ident == "Aa") {
+        d.push(dev(format!("Kk.serialize={:?}", l), &["ser"], move |s| {
+            if let Some(v) = s.variants.iter_mut().find(|v| v.ident == "Kk") {
                 v.serialize.push(l.to_string());
                 true
             } else {
@@ -107,8 +107,8 @@ fn alphabet() -> Vec<Dev> {
             }
         }));
     }
-    d.push(dev("Aa.ascii_case_insensitive", &["aci"], |s| {
-        if let Some(v) = s.variants.iter_mut().find(|v| v.ident == "Aa") {
+    d.push(dev("Kk.ascii_case_insensitive", &["aci"], |s| {
+        if let Some(v) = s.variants.iter_mut().find(|v| v.ident == "Kk") {
             v.aci = Some(Aci::Bare);
         }
         true
